@@ -1,24 +1,26 @@
 import CanvasModel.Path
 import Mathlib.Tactic.Linarith
-/-! Exact integer instances of the builder oracle: `goGeo` uses the Go code's sign-bit direction
-test literally, `fixedGeo` the dot product.  Used for witness theorems and non-vacuity. -/
+/-! Exact integer instances of the builder oracle: `goGeo` uses the Go code's dominant-axis sign-bit
+direction test literally, `fixedGeo` the dot product.  Used for witness theorems and non-vacuity. -/
 namespace Canvas.Path
 
 def iperp (p q : Pt Int) : Int := p.x * q.y - p.y * q.x
 def idot (p q : Pt Int) : Int := p.x * q.x + p.y * q.y
+
+def iabs (a : Int) : Int := if a < 0 then -a else a
 
 /-- Exact arithmetic, every formula as in path.go (Signbit x = x < 0; Epsilon = 0). -/
 def goGeo : Geo Int where
   zero := 0
   eq a b := a == b
   isInf _ := false
-  abs a := if a < 0 then -a else a
+  abs := iabs
   lt a b := a < b
   mul a b := a * b
   sub p q := ⟨p.x - q.x, p.y - q.y⟩
   parallel da db := iperp da db == 0
   sameDir da db :=
-    if da.y < da.x then decide (da.x < 0) == decide (db.x < 0) else decide (da.y < 0) == decide (db.y < 0)
+    if iabs da.y < iabs da.x then decide (da.x < 0) == decide (db.x < 0) else decide (da.y < 0) == decide (db.y < 0)
   angleEq0 p q := iperp p q == 0 && decide (0 ≤ idot p q)
   angleIs0 p q := iperp p q == 0 && decide (0 ≤ idot p q)
   rotPlus90 r := r + 90
@@ -83,5 +85,100 @@ theorem fixedGeo_mergeSound : MergeSound fixedGeo := by
     have hd : 0 < idot (⟨sx - ax, sy - ay⟩ : Pt Int) ⟨ax - sx, ay - sy⟩ := of_decide_eq_true hdir
     simp only [idot] at hd
     nlinarith [mul_self_nonneg (sx - ax), mul_self_nonneg (sy - ay)]
+
+theorem goGeo_ptEq (a b : Pt Int) : goGeo.ptEq a b = true ↔ a = b := by
+  cases a; cases b; simp [Geo.ptEq, goGeo]
+
+theorem goGeo_ptEq_false {a b : Pt Int} (h : goGeo.ptEq a b = false) : a ≠ b := by
+  intro hab
+  have := (goGeo_ptEq a b).2 hab
+  rw [this] at h; cases h
+
+theorem goGeo_sane : Sane goGeo := by
+  constructor
+  · intro a b
+    cases h : goGeo.ptEq b a
+    · cases h' : goGeo.ptEq a b
+      · rfl
+      · rw [goGeo_ptEq] at h'; subst h'
+        have : goGeo.ptEq a a = true := (goGeo_ptEq a a).2 rfl
+        rw [this] at h; cases h
+    · rw [goGeo_ptEq] at h; subst h; exact (goGeo_ptEq b b).2 rfl
+  · intro a b hab
+    have hne := goGeo_ptEq_false hab
+    cases a with | mk ax ay => cases b with | mk bx byy =>
+    have hd : decide (0 ≤ idot (⟨bx - ax, byy - ay⟩ : Pt Int) ⟨ax - bx, ay - byy⟩) = false := by
+      apply decide_eq_false
+      simp only [idot, not_le]
+      have hne' : bx - ax ≠ 0 ∨ byy - ay ≠ 0 := by
+        by_contra hc
+        simp only [not_or, not_not] at hc
+        apply hne
+        have h1 : ax = bx := by omega
+        have h2 : ay = byy := by omega
+        rw [h1, h2]
+      rcases hne' with h | h
+      · have := mul_self_pos.2 h
+        nlinarith [mul_self_nonneg (byy - ay)]
+      · have := mul_self_pos.2 h
+        nlinarith [mul_self_nonneg (bx - ax)]
+    show (iperp (⟨bx - ax, byy - ay⟩ : Pt Int) ⟨ax - bx, ay - byy⟩ == 0 &&
+      decide (0 ≤ idot (⟨bx - ax, byy - ay⟩ : Pt Int) ⟨ax - bx, ay - byy⟩)) = false
+    rw [hd, Bool.and_false]
+
+/-- The repaired direction test of LineTo (path.go, commit 219108c) is sound in exact arithmetic: a
+line that is parallel to the previous, non-zero one and whose dominant component has the same sign
+does not lead back to that line's start. -/
+theorem goGeo_mergeSound : MergeSound goGeo := by
+  intro a s p has _ _ hdir
+  cases h : goGeo.ptEq a p
+  · rfl
+  · exfalso
+    rw [goGeo_ptEq] at h; subst h
+    have hne := goGeo_ptEq_false has
+    cases a with | mk ax ay => cases s with | mk sx sy =>
+    have hne' : sx - ax ≠ 0 ∨ sy - ay ≠ 0 := by
+      by_contra hc
+      simp only [not_or, not_not] at hc
+      apply hne
+      have h1 : ax = sx := by omega
+      have h2 : ay = sy := by omega
+      rw [h1, h2]
+    have hdir' : (if iabs (sy - ay) < iabs (sx - ax) then decide (sx - ax < 0) == decide (ax - sx < 0)
+        else decide (sy - ay < 0) == decide (ay - sy < 0)) = true := hdir
+    have habs0 : ∀ x : Int, 0 ≤ iabs x := by intro x; unfold iabs; split <;> omega
+    have habsz : ∀ x : Int, iabs x ≤ 0 → x = 0 := by intro x; unfold iabs; split <;> omega
+    have hflip : ∀ x : Int, x ≠ 0 → (decide (x < 0) == decide (-x < 0)) = false := by
+      intro x hx
+      by_cases hs : x < 0
+      · have h2 : ¬ (-x < 0) := by omega
+        rw [decide_eq_true hs, decide_eq_false h2]; rfl
+      · have h2 : -x < 0 := by omega
+        rw [decide_eq_false hs, decide_eq_true h2]; rfl
+    have e1 : ax - sx = -(sx - ax) := by omega
+    have e2 : ay - sy = -(sy - ay) := by omega
+    rw [e1, e2] at hdir'
+    by_cases hlt : iabs (sy - ay) < iabs (sx - ax)
+    · rw [if_pos hlt] at hdir'
+      have hx : sx - ax ≠ 0 := by
+        intro h0
+        have := habs0 (sy - ay)
+        rw [h0] at hlt
+        have : iabs 0 = 0 := rfl
+        omega
+      rw [hflip _ hx] at hdir'
+      exact Bool.false_ne_true hdir'
+    · rw [if_neg hlt] at hdir'
+      by_cases h0 : sy - ay = 0
+      · have : sx - ax = 0 := by
+          apply habsz
+          rw [h0] at hlt
+          have : iabs 0 = 0 := rfl
+          omega
+        rcases hne' with h | h
+        · exact h this
+        · exact h h0
+      · rw [hflip _ h0] at hdir'
+        exact Bool.false_ne_true hdir'
 
 end Canvas.Path
